@@ -128,8 +128,12 @@ def monitorLeaf (style : Style F) (ctx : Option (MeasureSpec F)) (av : Size (Ava
         let measure := RootModel.ctxMeasure rc
         match Spec.excluded rs measure rav with
         | some tag =>
-          -- outside the theorem's hypotheses: report whether the specification happens to hold anyway
-          "ok excluded:" ++ tag ++ (if Spec.leafBox rs measure rav == rl then " spec-holds" else " spec-differs")
+          -- outside the theorem's hypotheses.  Where the specification happens to hold anyway: ok.  Where it does
+          -- not: the `c19-…` corners are violations of the property (reported under their tag, attributed through
+          -- known_findings.json); negative padding/border is invalid input and only noted.
+          if Spec.leafBox rs measure rav == rl then "ok excluded:" ++ tag ++ " spec-holds"
+          else if tag.startsWith "c19-" then tag ++ " specified size " ++ toString (repr (Spec.leafBox rs measure rav).size)
+          else "ok excluded:" ++ tag ++ " spec-differs"
         | none =>
           let want := Spec.leafBox rs measure rav
           let wantCalls := Spec.leafMeasureCalls rs rav
